@@ -4,7 +4,7 @@
    threads are skipped) and over ALL script assignments [scripts : nat -> list op], i.e. any number
    of threads.  Models: Model.v; contracts as history monitors: Spec.v. *)
 From God Require Import Base.Prelude C18.Conc C18.Spec C18.Model.
-From God Require Import C18.ProofsSF C18.ProofsLC C18.ProofsAO C18.ProofsPool C18.ProofsRM C18.ProofsTL.
+From God Require Import C18.ProofsSF C18.ProofsLC C18.ProofsAO C18.ProofsPool C18.ProofsRM C18.ProofsTL C18.ProofsRef.
 
 (* ---------------------------------------------------------------- SingleFlight *)
 (* every history is accepted by the sharing contract (Spec.sf_mon_step): a call that reports a
@@ -44,6 +44,33 @@ Theorem c18_singleflight_fresh_after : forall scripts sched t,
 Proof. exact sf_fresh_after. Qed.
 Print Assumptions c18_singleflight_fresh_after.
 
+(* user functions that PANIC (scripted value 0, Model.pan_flag): c18_singleflight_share already covers
+   them -- the panicking caller ends with the panic (KRet c=2), its sharers return nil, and nobody
+   invoked after that caller was unwound can share its flight.  On states: makeCall's deferred
+   function is taken whatever fn did, ... *)
+Theorem c18_singleflight_panic_cleanup : forall s t c,
+  (SF.t_pc (SF.ts s t) = SF.FnE c -> gate_open (SF.open s) (SF.t_gate (SF.ts s t)) = true ->
+     exists s', SF.step (Thr t) s = Some s' /\ SF.t_pc (SF.ts s' t) = SF.DLock c) /\
+  (SF.t_pc (SF.ts s t) = SF.DLock c -> SF.lock s = None -> exists s', SF.step (Thr t) s = Some s' /\ SF.t_pc (SF.ts s' t) = SF.DDel c) /\
+  (SF.t_pc (SF.ts s t) = SF.DDel c -> exists s', SF.step (Thr t) s = Some s' /\ SF.t_pc (SF.ts s' t) = SF.DUnlock c /\
+     alookup Nat.eqb (SF.t_key (SF.ts s t)) (SF.calls s') = None) /\
+  (SF.t_pc (SF.ts s t) = SF.DUnlock c -> exists s', SF.step (Thr t) s = Some s' /\ SF.t_pc (SF.ts s' t) = SF.DDone c /\ SF.lock s' = None) /\
+  (SF.t_pc (SF.ts s t) = SF.DDone c -> exists s', SF.step (Thr t) s = Some s' /\ SF.t_pc (SF.ts s' t) = SF.Idle /\ SF.wg s' c = SF.wg s c - 1).
+Proof. exact sf_cleanup_unconditional. Qed.
+Print Assumptions c18_singleflight_panic_cleanup.
+
+(* ... and once the executing call of a flight is gone (returned or unwound), its waiters can return
+   (with the flight's value, nil after a panic) and no map entry refers to it, so the next call of
+   the key misses and executes afresh (c18_singleflight_fresh_after) *)
+Theorem c18_singleflight_panic_safe : forall scripts sched,
+  let s := run SF.step sched (SF.init scripts) in
+  (forall u c, SF.t_pc (SF.ts s u) = SF.CWait c -> own_of (SF.t_pc (SF.ts s (SF.cre s c))) <> Some c ->
+               exists s', SF.step (Thr u) s = Some s' /\ SF.t_pc (SF.ts s' u) = SF.Idle /\
+                          SF.t_res (SF.ts s' u) = (0, SF.cval s c) :: SF.t_res (SF.ts s u)) /\
+  (forall k c, alookup Nat.eqb k (SF.calls s) = Some c -> own_of (SF.t_pc (SF.ts s (SF.cre s c))) = Some c).
+Proof. exact sf_panic_safe. Qed.
+Print Assumptions c18_singleflight_panic_safe.
+
 (* ---------------------------------------------------------------- LockedCalls *)
 (* every history is accepted by Spec.lc_mon_step: executions of fn for one key never overlap, each
    call executes fn exactly once and returns its own fn's result *)
@@ -59,6 +86,27 @@ Theorem c18_locked_exclusive_state : forall scripts sched t u c d,
   LC.t_key (LC.ts s t) = LC.t_key (LC.ts s u) -> t = u.
 Proof. exact lc_exclusive_state. Qed.
 Print Assumptions c18_locked_exclusive_state.
+
+(* a panicking fn releases the key: the deferred function of makeCall is taken whatever fn did, and
+   once the call holding the key is gone the waiters retry and find no entry *)
+Theorem c18_locked_panic_cleanup : forall s t c,
+  (LC.t_pc (LC.ts s t) = LC.FnE c -> gate_open (LC.open s) (LC.t_gate (LC.ts s t)) = true ->
+     exists s', LC.step (Thr t) s = Some s' /\ LC.t_pc (LC.ts s' t) = LC.DLock c) /\
+  (LC.t_pc (LC.ts s t) = LC.DLock c -> LC.lock s = None -> exists s', LC.step (Thr t) s = Some s' /\ LC.t_pc (LC.ts s' t) = LC.DDel c) /\
+  (LC.t_pc (LC.ts s t) = LC.DDel c -> exists s', LC.step (Thr t) s = Some s' /\ LC.t_pc (LC.ts s' t) = LC.DUnlock c /\
+     alookup Nat.eqb (LC.t_key (LC.ts s t)) (LC.calls s') = None) /\
+  (LC.t_pc (LC.ts s t) = LC.DUnlock c -> exists s', LC.step (Thr t) s = Some s' /\ LC.t_pc (LC.ts s' t) = LC.DDone c /\ LC.lock s' = None) /\
+  (LC.t_pc (LC.ts s t) = LC.DDone c -> exists s', LC.step (Thr t) s = Some s' /\ LC.t_pc (LC.ts s' t) = LC.Idle /\ LC.wg s' c = LC.wg s c - 1).
+Proof. exact lc_cleanup_unconditional. Qed.
+Print Assumptions c18_locked_panic_cleanup.
+
+Theorem c18_locked_panic_safe : forall scripts sched,
+  let s := run LC.step sched (LC.init scripts) in
+  (forall u c, LC.t_pc (LC.ts s u) = LC.LWait c -> lown_of (LC.t_pc (LC.ts s (LC.cre s c))) <> Some c ->
+               exists s', LC.step (Thr u) s = Some s' /\ LC.t_pc (LC.ts s' u) = LC.LLock) /\
+  (forall k c, alookup Nat.eqb k (LC.calls s) = Some c -> lown_of (LC.t_pc (LC.ts s (LC.cre s c))) = Some c).
+Proof. exact lc_panic_safe. Qed.
+Print Assumptions c18_locked_panic_safe.
 
 (* ---------------------------------------------------------------- Limit *)
 (* 0 <= outstanding <= n, and outstanding = successful borrows - successful returns *)
@@ -90,11 +138,21 @@ Proof. exact tl_only_after_elapsed. Qed.
 Print Assumptions c18_timeout_only_after_elapsed.
 
 (* ---------------------------------------------------------------- Pool *)
+(* live resources = #(create returned) - #destroy <= limit; p.created also counts create() calls
+   that are still running or that panicked (it is incremented before create is called) *)
 Theorem c18_pool_bound : forall limit maxage scripts sched, (0 <= limit)%Z ->
   let s := run (POOL.step limit maxage) sched (POOL.init scripts) in
-  POOL.created s = (POOL.ncreate s - POOL.ndestroy s)%Z /\ (POOL.ncreate s - POOL.ndestroy s <= limit)%Z.
+  POOL.created s = (POOL.ncreate s + POOL.nleak s - POOL.ndestroy s)%Z /\ (0 <= POOL.nleak s)%Z /\
+  (POOL.ncreate s - POOL.ndestroy s <= limit)%Z.
 Proof. exact pool_bound. Qed.
 Print Assumptions c18_pool_bound.
+
+(* the create/destroy callbacks run under the pool's mutex: no other Get/Put is inside the pool *)
+Theorem c18_pool_mutex : forall limit maxage scripts sched t u, (0 <= limit)%Z ->
+  let s := run (POOL.step limit maxage) sched (POOL.init scripts) in
+  POOL.holds (POOL.t_pc (POOL.ts s t)) = true -> POOL.holds (POOL.t_pc (POOL.ts s u)) = true -> t = u.
+Proof. exact pool_mutex. Qed.
+Print Assumptions c18_pool_mutex.
 
 Theorem c18_pool_single_holder : forall limit maxage scripts sched, (0 <= limit)%Z ->
   let s := run (POOL.step limit maxage) sched (POOL.init scripts) in
@@ -104,11 +162,13 @@ Theorem c18_pool_single_holder : forall limit maxage scripts sched, (0 <= limit)
 Proof. exact pool_single_holder. Qed.
 Print Assumptions c18_pool_single_holder.
 
-(* an idle resource older than maxAge met by Get is destroyed (and Get continues with the rest) *)
+(* an idle resource older than maxAge met by Get is destroyed (Get continues with the rest, or is
+   unwound if the destroy callback panics -- the resource is gone either way) *)
 Theorem c18_pool_max_age : forall limit maxage s t r lu rest,
   POOL.t_pc (POOL.ts s t) = POOL.GLoop -> POOL.head s = (r, lu) :: rest -> 0 < maxage -> lu + maxage < POOL.now s ->
   exists s', POOL.step limit maxage (Thr t) s = Some s' /\ POOL.loc s' r = 2 /\ POOL.head s' = rest /\
-             POOL.t_pc (POOL.ts s' t) = POOL.GLoop /\ POOL.ts s' = POOL.ts s /\
+             POOL.t_pc (POOL.ts s' t) = (if Nat.eqb (POOL.t_dpan (POOL.ts s t)) 0 then POOL.GLoop else POOL.GPanic) /\
+             POOL.t_held (POOL.ts s' t) = POOL.t_held (POOL.ts s t) /\ POOL.t_res (POOL.ts s' t) = POOL.t_res (POOL.ts s t) /\
              POOL.ndestroy s' = (POOL.ndestroy s + 1)%Z /\ POOL.created s' = (POOL.created s - 1)%Z.
 Proof. exact pool_max_age_step. Qed.
 Print Assumptions c18_pool_max_age.
@@ -127,33 +187,48 @@ Theorem c18_pool_destroyed_gone : forall limit maxage scripts sched r, (0 <= lim
 Proof. exact pool_destroyed_gone. Qed.
 Print Assumptions c18_pool_destroyed_gone.
 
-(* ---------------------------------------------------------------- RefResource *)
-(* the clean callback has run once if the resource is marked cleaned and never otherwise; cleaned
-   implies the count is zero; the count is (successful Use) - (effective Clean) *)
+(* ---------------------------------------------------------------- RefResource
+   (REFL: lock; test / counter / flag; callback under the lock, possibly blocking or panicking;
+   deferred unlock -- every interleaving of these actions) *)
+(* the clean callback has started once if the resource is marked cleaned and never otherwise; cleaned
+   implies the count is zero; the count is (successful Use) - (effective Clean); the mutex is
+   exclusive; while the callback runs the resource is already marked *)
 Theorem c18_ref_clean_once : forall scripts sched,
-  let ob := AO.obj (run (AO.step REF.sstep) sched (AO.init REF.init scripts)) in
-  REF.ncb ob = (if REF.cleaned ob then 1 else 0) /\ (REF.cleaned ob = true -> REF.ref ob = 0%Z) /\
-  REF.ref ob = (Z.of_nat (REF.nuse ob) - Z.of_nat (REF.ncl ob))%Z.
-Proof. exact ref_inv. Qed.
+  let s := run REFL.step sched (REFL.init scripts) in
+  REFL.ncb s = (if REFL.cleaned s then 1 else 0) /\ (REFL.cleaned s = true -> REFL.ref s = 0%Z) /\
+  REFL.ref s = (Z.of_nat (REFL.nuse s) - Z.of_nat (REFL.ncl s))%Z /\
+  (forall t u, REFL.holds (REFL.t_pc (REFL.ts s t)) = true -> REFL.holds (REFL.t_pc (REFL.ts s u)) = true -> t = u) /\
+  (forall t, REFL.t_pc (REFL.ts s t) = REFL.CCb -> REFL.cleaned s = true).
+Proof. exact refl_clean_once. Qed.
 Print Assumptions c18_ref_clean_once.
 
-(* the callback runs in exactly the Clean call that takes the count to zero *)
+(* once cleaned (from the moment the flag is set, i.e. before the callback starts): every Use that
+   reaches its test is refused, no Clean decrements or starts the callback again, nothing un-marks
+   the resource -- also while the callback is running or after it panicked *)
+Theorem c18_ref_refuses_after : forall l s s', REFL.cleaned s = true -> REFL.step l s = Some s' ->
+  REFL.cleaned s' = true /\ REFL.ncb s' = REFL.ncb s /\ REFL.ref s' = REFL.ref s /\ REFL.nuse s' = REFL.nuse s /\
+  (forall t, l = Thr t -> REFL.t_pc (REFL.ts s t) = REFL.UBody -> REFL.t_pc (REFL.ts s' t) = REFL.UUnlock 1) /\
+  (forall t, l = Thr t -> REFL.t_pc (REFL.ts s t) = REFL.CBody -> REFL.t_pc (REFL.ts s' t) = REFL.CUnlock 0).
+Proof. exact refl_refuses_after. Qed.
+Print Assumptions c18_ref_refuses_after.
+
+(* the deferred Unlock runs whether the callback returns or panics *)
+Theorem c18_ref_unlock_after_callback : forall s t,
+  REFL.t_pc (REFL.ts s t) = REFL.CCb -> gate_open (REFL.open s) (REFL.t_gate (REFL.ts s t)) = true ->
+  exists s1 s2 r, REFL.step (Thr t) s = Some s1 /\ REFL.t_pc (REFL.ts s1 t) = REFL.CUnlock r /\ 1 <= r /\
+                  REFL.step (Thr t) s1 = Some s2 /\ REFL.lock s2 = None /\ REFL.t_pc (REFL.ts s2 t) = REFL.Idle.
+Proof. exact refl_unlock_after_callback. Qed.
+Print Assumptions c18_ref_unlock_after_callback.
+
+(* the sequential specification used for the linearizability check of recorded histories says the
+   same: the callback runs (result 1, or 2 when it panics) in exactly the Clean call that takes the
+   count to zero, and cleaned is set in that very step *)
 Theorem c18_ref_clean_when_zero : forall s t o s' r, 1 <= o_code o -> REF.sstep s t o = Some (s', r) ->
-  (r = 1 <-> REF.cleaned s = false /\ (REF.ref s - 1 = 0)%Z) /\
-  (r = 1 -> REF.cleaned s' = true /\ REF.ncb s' = S (REF.ncb s)) /\
+  (1 <= r <-> REF.cleaned s = false /\ (REF.ref s - 1 = 0)%Z) /\
+  (1 <= r -> REF.cleaned s' = true /\ REF.ncb s' = S (REF.ncb s)) /\
   (r = 0 -> REF.ncb s' = REF.ncb s) /\ (REF.cleaned s = true -> s' = s).
 Proof. exact ref_clean_step. Qed.
 Print Assumptions c18_ref_clean_when_zero.
-
-(* after cleaning, Use is refused (1 = ErrUseOfCleaned) and nothing ever changes again *)
-Theorem c18_ref_refuses_after : forall s t o, REF.cleaned s = true ->
-  (o_code o = 0 -> REF.sstep s t o = Some (s, 1)) /\ (forall s' r, REF.sstep s t o = Some (s', r) -> s' = s).
-Proof.
-  intros s t o Hc. split.
-  - intro Ho. rewrite (ref_use_step s t o Ho), Hc. reflexivity.
-  - intros s' r. exact (ref_cleaned_stable s t o s' r Hc).
-Qed.
-Print Assumptions c18_ref_refuses_after.
 
 (* ---------------------------------------------------------------- ResourceManager *)
 (* at most one flight, hence one create() in progress, per key *)
@@ -170,6 +245,15 @@ Theorem c18_rm_one_create : forall scripts sched k,
   RM.closed s = false -> RM.ncre s k <= 1.
 Proof. exact rm_one_create. Qed.
 Print Assumptions c18_rm_one_create.
+
+(* a create() that fails or panics winds the flight up like a successful one *)
+Theorem c18_rm_panic_safe : forall scripts sched,
+  let s := run RM.step sched (RM.init scripts) in
+  (forall u c, RM.t_pc (RM.ts s u) = RM.SWait c -> rown_of (RM.t_pc (RM.ts s (RM.cre s c))) <> Some c ->
+               exists s', RM.step (Thr u) s = Some s' /\ RM.t_pc (RM.ts s' u) = RM.Idle) /\
+  (forall k c, alookup Nat.eqb k (RM.calls s) = Some c -> rown_of (RM.t_pc (RM.ts s (RM.cre s c))) = Some c).
+Proof. exact rm_panic_safe. Qed.
+Print Assumptions c18_rm_panic_safe.
 
 (* Close closes every stored resource and empties the table *)
 Theorem c18_rm_close_all : forall s t, RM.t_pc (RM.ts s t) = RM.CClose ->
@@ -221,6 +305,26 @@ Example c18_sf_monitor_rejects_stale :
 Proof. vm_compute. reflexivity. Qed.
 Example c18_lc_monitor_rejects_overlap :
   lc_accepts [mkev 0 KInv 1 7 0 0; mkev 1 KInv 1 7 0 0; mkev 0 KBegin 1 7 0 0; mkev 1 KBegin 1 7 0 0] = false.
+Proof. vm_compute. reflexivity. Qed.
+
+(* a panicking flight: the sharer returns nil, the caller sees the panic (2), the next call is fresh *)
+Example c18_sf_panic_then_fresh :
+  let scr := fun t => match t with 0 => [mkop 0 7 1 0; mkop 0 7 0 101] | 1 => [mkop 0 7 0 200] | _ => [] end in
+  let fin := replay SF.step SF.busy 50 [0;1] [Thr 0; Thr 1; Open 1; Thr 0] (SF.init scr) in
+  (map (fun t => SF.t_res (SF.ts fin t)) [0;1], sf_accepts (rev (SF.trace fin))) = ([[(1, 101); (2, 0)]; [(0, 0)]], true).
+Proof. vm_compute. reflexivity. Qed.
+
+(* a later call sharing a panicked flight is rejected by the monitor *)
+Example c18_sf_monitor_rejects_stale_after_panic :
+  sf_accepts [mkev 0 KInv 0 7 0 0; mkev 0 KBegin 0 7 0 0; mkev 0 KEnd 0 7 0 1; mkev 0 KRet 0 7 0 2;
+              mkev 1 KInv 0 7 0 0; mkev 1 KRet 0 7 0 0] = false.
+Proof. vm_compute. reflexivity. Qed.
+
+(* Use issued while the clean callback is blocked inside Clean: it waits for the lock and is refused *)
+Example c18_ref_use_during_callback :
+  let scr := fun t => match t with 0 => [mkop 0 0 0 0; mkop 1 0 1 0] | 1 => [mkop 0 0 0 0; mkop 1 0 0 0] | _ => [] end in
+  let fin := replay REFL.step REFL.busy 50 [0;1] [Thr 0; Thr 0; Thr 1; Open 1; Thr 1] (REFL.init scr) in
+  map (fun t => REFL.t_res (REFL.ts fin t)) [0;1] = [[(1, 0); (0, 0)]; [(0, 0); (1, 0)]].
 Proof. vm_compute. reflexivity. Qed.
 
 Example c18_limit_return_without_borrow :
